@@ -221,8 +221,10 @@ def gen_config(rng, allow_uri_append=False, allow_static_param=True, rsa=None):
                     hx(bytes(rng.getrandbits(8) for _ in range(rng.choice([0, 1, 8, 32]))))
             elif r < 0.8:
                 idx, t, val = rng.choice([29, 30]), "ptr", _pad(("%windir%\\syswow64\\" + _word(rng, 3, 8) + ".exe").encode(), 64)
-            else:
+            elif r < 0.9:
                 idx, t, val = rng.choice([35, 38, 39]), "short", rng.choice([0, 1, 2])
+            else:
+                idx, t, val = 36, "short", rng.getrandbits(16)        # old beacons: index 36 is INJECT_OPTIONS (short), not the watermark hash
             if idx not in used:
                 used.add(idx)
                 extra.append([idx, t, val])
